@@ -65,6 +65,33 @@ type C20MarshalP struct{ V data.Value }
 
 func (m *C20MarshalP) MarshalValue() data.Value { return m.V }
 
+// Named NON-struct types that implement data.Marshaler with a value receiver: a conversion that dispatches on the kind
+// before it asks for a Marshaler ignores them (seeded change C20b-1: a fast path for slices of scalars).
+type C20Level int
+
+func (l C20Level) MarshalValue() data.Value { return data.String("level-" + strconv.Itoa(int(l))) }
+
+type C20Flag bool
+
+func (f C20Flag) MarshalValue() data.Value {
+	if f {
+		return data.Int(1)
+	}
+	return data.Int(0)
+}
+
+type C20Tag string
+
+func (t C20Tag) MarshalValue() data.Value { return data.String("#" + string(t)) }
+
+type C20Ratio float64
+
+func (r C20Ratio) MarshalValue() data.Value { return data.Float(float64(r) * 100) }
+
+type C20Items []int32
+
+func (l C20Items) MarshalValue() data.Value { return data.Int(len(l)) }
+
 type C20Inner struct {
 	A int8
 	B string
@@ -106,13 +133,14 @@ type c20AllHidden struct {
 }
 
 var (
-	c20EmptyIface   = reflect.TypeOf((*interface{})(nil)).Elem()
-	c20ValueIface   = reflect.TypeOf((*data.Value)(nil)).Elem()
-	c20MarshalIface = reflect.TypeOf((*data.Marshaler)(nil)).Elem()
-	c20TimeType     = reflect.TypeOf(time.Time{})
-	c20MarshalVType = reflect.TypeOf(C20MarshalV{})
-	c20MarshalPType = reflect.TypeOf(&C20MarshalP{})
-	c20ScalarTypes  = []reflect.Type{
+	c20EmptyIface      = reflect.TypeOf((*interface{})(nil)).Elem()
+	c20ValueIface      = reflect.TypeOf((*data.Value)(nil)).Elem()
+	c20MarshalIface    = reflect.TypeOf((*data.Marshaler)(nil)).Elem()
+	c20TimeType        = reflect.TypeOf(time.Time{})
+	c20MarshalVType    = reflect.TypeOf(C20MarshalV{})
+	c20MarshalPType    = reflect.TypeOf(&C20MarshalP{})
+	c20PlainMarshalers = []reflect.Type{reflect.TypeOf(C20Level(0)), reflect.TypeOf(C20Flag(false)), reflect.TypeOf(C20Tag("")), reflect.TypeOf(C20Ratio(0)), reflect.TypeOf(C20Items(nil))}
+	c20ScalarTypes     = []reflect.Type{
 		reflect.TypeOf(false), reflect.TypeOf(int(0)), reflect.TypeOf(int8(0)), reflect.TypeOf(int16(0)), reflect.TypeOf(int32(0)), reflect.TypeOf(int64(0)),
 		reflect.TypeOf(uint(0)), reflect.TypeOf(uint8(0)), reflect.TypeOf(uint16(0)), reflect.TypeOf(uint32(0)), reflect.TypeOf(uint64(0)),
 		reflect.TypeOf(float32(0)), reflect.TypeOf(float64(0)), reflect.TypeOf(""),
@@ -551,6 +579,9 @@ func (g *c20Gen) randType(depth int, bad bool) reflect.Type {
 	case k < 85:
 		return g.randStructType(depth-1, bad)
 	case k < 88:
+		if g.r.Chance(50) {
+			return c20PlainMarshalers[g.r.Intn(len(c20PlainMarshalers))]
+		}
 		return c20MarshalVType
 	case k < 90:
 		return c20MarshalPType
@@ -627,6 +658,43 @@ func (g *c20Gen) gen(t reflect.Type, depth int) *c20Node {
 		ig := g.r.Intn(9)
 		rv.Set(reflect.ValueOf(C20MarshalV{V: v, Ignore: ig}))
 		n.kind, n.val, n.under = "marshal", v, marshalUnder(v, ig, true)
+		return n
+	case t.Kind() != reflect.Struct && t.Kind() != reflect.Ptr && t.Kind() != reflect.Interface && t.PkgPath() != "" && t.Implements(c20MarshalIface):
+		// one of the named scalar / slice Marshalers: generate the plain value, then ask it what it marshals to
+		var u *c20Node
+		switch t.Kind() {
+		case reflect.Int:
+			z := g.randInt(64)
+			rv.SetInt(z)
+			u = &c20Node{kind: "int", width: 64, i: z}
+		case reflect.Bool:
+			x := g.r.Bool()
+			rv.SetBool(x)
+			u = &c20Node{kind: "bool", b: x}
+		case reflect.String:
+			x := g.randString()
+			rv.SetString(x)
+			u = &c20Node{kind: "str", s: x}
+		case reflect.Float64:
+			x := float64(int64(g.r.Intn(4096))-2048) / float64(int64(1)<<uint(g.r.Intn(8)))
+			rv.SetFloat(x)
+			u = &c20Node{kind: "float", width: 64, f: x}
+		default: // C20Items
+			cnt := g.r.Intn(4)
+			sl := reflect.MakeSlice(t, cnt, cnt)
+			u = &c20Node{kind: "slice"}
+			for i := 0; i < cnt; i++ {
+				z := g.randInt(32)
+				sl.Index(i).SetInt(z)
+				u.elems = append(u.elems, &c20Node{kind: "int", width: 32, i: z})
+			}
+			if cnt == 0 && g.r.Bool() {
+				u.isNil = true
+			} else {
+				rv.Set(sl)
+			}
+		}
+		n.kind, n.val, n.under = "marshal", rv.Interface().(data.Marshaler).MarshalValue(), u
 		return n
 	case t == c20MarshalPType:
 		v := g.randDataValue(depth)
@@ -757,7 +825,7 @@ func (g *c20Gen) gen(t reflect.Type, depth int) *c20Node {
 		if g.r.Chance(20) || depth < -3 {
 			n.isNil = true
 			switch {
-			case t.Elem() == c20MarshalVType:
+			case t.Elem().Kind() != reflect.Interface && t.Elem().Kind() != reflect.Ptr && t.Elem().Implements(c20MarshalIface):
 				n.nilTo = "marshal" // a Marshaler whose value method cannot be called: a panic where NewWith looks at the dynamic type
 			case t.Elem().Kind() != reflect.Interface && t.Elem().Implements(c20ValueIface):
 				n.nilTo = "value" // a nil *data.Int is itself a data.Value
@@ -1432,6 +1500,10 @@ func c20PointerChains(e *env, g *c20Gen) {
 	bases := []base{
 		{"marshaler(value receiver)", func() *c20Node { return g.gen(c20MarshalVType, 1) }},
 		{"marshaler(pointer receiver)", func() *c20Node { return g.gen(c20MarshalPType, 1) }},
+		{"marshaler(named int)", func() *c20Node { return g.gen(c20PlainMarshalers[0], 1) }},
+		{"marshaler(named slice)", func() *c20Node { return g.gen(c20PlainMarshalers[4], 1) }},
+		{"slice of marshalers(named int)", func() *c20Node { return g.gen(reflect.SliceOf(c20PlainMarshalers[0]), 1) }},
+		{"slice of marshalers(named string)", func() *c20Node { return g.gen(reflect.SliceOf(c20PlainMarshalers[2]), 1) }},
 		{"time", func() *c20Node { return g.gen(c20TimeType, 1) }},
 		{"int32", func() *c20Node { return g.gen(reflect.TypeOf(int32(0)), 1) }},
 		{"uint64", func() *c20Node { return g.gen(reflect.TypeOf(uint64(0)), 1) }},
